@@ -36,7 +36,7 @@ func roleOf(point string) string {
 		return "qlistener"
 	case strings.HasPrefix(point, "queryEventExpire"):
 		return "qtimer"
-	case strings.HasPrefix(point, "updateIndex"), point == "tq.next":
+	case strings.HasPrefix(point, "updateIndex"), point == "tq.next", point == "tq.start":
 		return "tqworker"
 	case point == "conn.callback":
 		return "conncb"
